@@ -386,6 +386,23 @@ plan_err += [
 ]
 fam('plan_errors', plan_err)
 
+# the caller edits its catalog IN PLACE between calls: variants 'X+eN' of catalog X are the same list objects with other content
+cE = 'cE'
+catalogs[cE] = {'integrations': ['int', 'int2'], 'predictor_namespace': 'mindsdb', 'default_namespace': None,
+                'predictor_metadata': [{'name': 'pred'}, {'name': 'tsm', 'timeseries': False}]}
+catalogs[cE + '+e1'] = {'integrations': ['int', 'int2'], 'predictor_namespace': 'mindsdb', 'default_namespace': None,
+                        'predictor_metadata': [{'name': 'pred'}, {'name': 'tsm', 'timeseries': False}, {'name': 'newmodel'}]}
+catalogs[cE + '+e2'] = {'integrations': ['int', 'int2'], 'predictor_namespace': 'mindsdb', 'default_namespace': None,
+                        'predictor_metadata': [{'name': 'pred'}, {'name': 'tsm', 'timeseries': True, 'order_by_column': 'ts', 'group_by_columns': ['g'], 'window': 5}]}
+catalogs[cE + '+e3'] = {'integrations': ['int', 'int2', 'int3'], 'predictor_namespace': 'mindsdb', 'default_namespace': None,
+                        'predictor_metadata': [{'name': 'pred'}, {'name': 'tsm', 'timeseries': False}]}
+catalogs[cE + '+e4'] = {'integrations': ['int'], 'predictor_namespace': 'mindsdb', 'default_namespace': 'int',
+                        'predictor_metadata': [{'name': 'tsm', 'timeseries': False}]}
+EDIT_SQL = ["select * from mindsdb.newmodel where x = 1", "select t.a, m.p from int.tab1 t join mindsdb.newmodel m", "select * from int3.tab9 where a = 1",
+            "select * from int.tab1 t1 join int3.tab9 t9 on t1.a = t9.a", "select * from int.tab1 t join mindsdb.tsm m where t.ts > latest and t.g = 1",
+            "select * from mindsdb.pred where x = 1", "select * from int2.tab2 where a in (select b from int3.tab9)", "select * from tab1 where a = 1"]
+fam('catalog_edits', [P(q_, cid_) for cid_ in (cE, cE + '+e1', cE + '+e2', cE + '+e3', cE + '+e4') for q_ in EDIT_SQL])
+
 # same identifier, different role in different catalogs: 'sales' is a project, a data integration, an api integration,
 # a schema under the default integration, the predictor namespace, or unknown
 ROLE_OPS = ["select * from sales.orders", "select * from sales.orders where a = 1", "select o.a from sales.orders o join int.tab1 t on o.id = t.id",
@@ -588,6 +605,18 @@ fam('placeholders', [x for q_ in PH for x in (
     {'k': 'flow', 'd': 'mindsdb', 'sql': q_, 'cat': cA, 'rd': 'mysql'}, {'k': 'render', 'd': 'mindsdb', 'sql': q_, 'rd': 'postgresql', 'fb': True})])
 fam('dialect_diff', dialect_diff_ops)
 
+# raw (native) queries: their productions are generated from a set of all tokens, the part of the grammar whose construction
+# order depends on the hash seed; raw texts that start with every kind of token, in every statement that embeds one
+RAW_BODIES = ["tbl", "tbl, other", "a b c", "db.coll.find({\"a\": 1})", "select * from t where a = 1", "1 + 2", "'text' and more", "show tables",
+              "a, b", "from x select y", "(nested (parens)) tail", "* from t", "?", "x = ? and y = ?", "create table t (a int)", "`q` \"dq\""]
+RAW_FORMS = ["create view v from int1 (%s)", "create view v (%s)", "create view v as (%s)", "select * from int1 (%s)", "select * from int1 (%s) as n where n.a = 1",
+             "create model m from int1 (%s) predict x", "retrain m from int1 (%s)", "create job j (%s)", "create trigger tr on db.t (%s)", "evaluate acc from (%s)"]
+raw_ops = []
+for f_ in RAW_FORMS:
+    for b_ in RAW_BODIES:
+        raw_ops.append({'k': 'parse', 'd': 'mindsdb', 'sql': f_ % b_})
+fam('raw_queries', raw_ops)
+
 # deep / long inputs: long AND/OR chains, deep parentheses, long IN lists, many UNION branches.  Kept only if the outcome
 # (a plan, or RecursionError) is the same under recursion limits 0.7x and 1.4x the default, i.e. far from the edge, so that
 # the few frames by which a client thread's stack differs from the reference child's cannot flip it.
@@ -736,7 +765,7 @@ probes = [
     {'k': 'render', 'd': 'mindsdb', 'sql': "select interval '1 day'", 'rd': 'oracle', 'fb': True},
 ]
 
-pool = parse_ops + mut_ops + mal_ops + plan_ops + render_ops + flow_ops + gen_plan + gen_render + gen_parse + leaf_pool + render_ops_late + dialect_diff_ops + render_ops_long
+pool = parse_ops + mut_ops + mal_ops + plan_ops + render_ops + flow_ops + gen_plan + gen_render + gen_parse + leaf_pool + render_ops_late + dialect_diff_ops + render_ops_long + raw_ops
 # dedupe
 seen = set()
 pool2 = []
